@@ -41,7 +41,7 @@ func rhsPaths(e Expr, out *[]Path, ineFirst *[]Path) {
 // UpdateGuards returns the ids of the update-related known findings whose
 // trigger predicate holds for this update on this pre-update item:
 //   F-KEYMUT     an action targets a key attribute
-//   F-SETORDER   a right-hand side reads a path that another action of the
+//   F-SETORDER   a right-hand side reads a path that an earlier action of the
 //                same expression writes (equal, prefix or extension)
 //   F-SETMISSING a SET right-hand side reads a path that does not resolve
 //                (other than as first argument of if_not_exists)
@@ -116,7 +116,9 @@ func UpdateGuards(u Update, base Item, env Env, keyAttrs []string) []string {
 				for _, t := range targets {
 					// list positions are compared loosely: a SET past the end
 					// of a list appends, so it may land on any later index
-					if t.idx != n && pathOverlapLoose(rp, t.rp) {
+					// (the implementation applies the actions in the order they are
+					// written: only a write that comes first can be seen by the read)
+					if t.idx < n && pathOverlapLoose(rp, t.rp) {
 						ids = append(ids, "F-SETORDER")
 					}
 				}
